@@ -210,6 +210,8 @@ def run(prop, tier):
         n_p, n_l = (150, 40) if tier == "quick" else (2500, 200)
         u = gen.universe(prop, seed() * 9973 + 11, n_p, n_l)
         run_part(report, prop, "rand", u, dict(flags=FF, rand=True), tier)
+    if prop == "C07":
+        repo_traces(report)
     if prop == "C18":
         c18_real_objdump(report, tier)
     run_witnesses(report, prop)
@@ -259,3 +261,24 @@ def replay(prop, path):
     print(f"replay verdict: {v}")
     print(json.dumps(o, indent=1)[:3000])
     return 1 if v.startswith("rej") else 0
+
+
+def repo_traces(report):
+    """code -> spec: the executions the repository's own tests trigger (tests/configuration.yaml), validated by TLC
+    against every clause, not only the one boolean the test asserts (Trace_Repo)."""
+    from .. import repotraces
+    meta, cases, verdicts, obs = repotraces.run(report)
+    for m, c, v, o in zip(meta, cases, verdicts, obs):
+        if v is None:
+            raise MachineryError(f"Trace_Repo gave no verdict for {m['title']}")
+        if v.startswith("rej"):
+            report.violation(f"{v[4:]} on the repository test '{m['title']}'",
+                             {"kind": "repo", "title": m["title"], "observed": {k: o.get(k) for k in ("outcome", "res", "exc")}})
+    report.cov["evaluations"] += len(cases)
+    report.cov["traces_validated_against_impl"] += len(cases)
+    report.cov["distinct_nontrivial"] += sum(1 for v in verdicts if v in ("ok:F", "ok:N"))
+    report.cov.setdefault("parts", []).append({
+        "part": "repository test inputs (tests/configuration.yaml)", "cases": len(cases),
+        "fully_judged_by_the_semantics": sum(1 for v in verdicts if v in ("ok:F", "ok:N")),
+        "outside_literal_name_scope": sum(1 for v in verdicts if v.startswith("ok:unjudged")),
+        "rejected": sum(1 for v in verdicts if v.startswith("rej"))})
